@@ -75,6 +75,11 @@ func c16Point(r *rand.Rand) (*input.Point, string) {
 var c16ParseSrcs = []string{
 	"a = 1 + 2 * 3\nif a { b = [1, 2][0:1] }\n", "x = \"unterminated", "for i = 0; i < 3; i = i + 1 { p(i) }", "a b c", "x = 0x", "m = {\"k\": [1, {\"z\": nil}]}\n",
 	"add_pattern(\"zz\", \"[0-9]+\")\ngrok(_, \"%{zz:v:int}\")\n", "grok(_, \"%{NOSUCH:x}\")", "use(\"lib2.p\")\n", "# only a comment\n", "x = '''multi\nline'''\n",
+	// string literals that take the decoding path (escapes, embedded quotes,
+	// multi-line) and hold characters of every UTF-8 length, different in
+	// every source, so that shared decoder scratch state would show
+	"x = \"é\\tééééééééééééé \\\\ é\"\n", "y = '世\\n世世世世世世世世世世世世 \\' 世'\n", "z = \"\"\"日本日本日本日本\n\"q\" 日本日本\"\"\"\n",
+	"w = \"\\U0001F600😀😀😀😀😀😀😀😀 \\u00e9 ok\\n\"\n", "v = '''ñ\\ñ\nñ'ñ'ñññññññ'''\n", "u = \"a\\x41ßßßßßßßßßßßßßßß\\101\"\nt = \"𝄞\\\"𝄞𝄞𝄞𝄞𝄞𝄞\"\n",
 }
 
 func showPt(p *input.Point) string { return showRealPoint(p) }
@@ -83,6 +88,7 @@ var raceBlock = regexp.MustCompile(`(?s)WARNING: DATA RACE.*?==================`
 
 func (k c16) Run(c *mon.Ctx, workload string, i int64) {
 	drive.Init()
+	drive.Concurrent = true
 	if !mon.RaceEnabled {
 		c.Inconclusive("this check must run in the -race build of the monitor")
 		return
